@@ -354,7 +354,7 @@ pub fn load_known_findings(root: &str) -> Vec<KnownFinding> {
                 for l in t.lines() {
                     let l = l.trim();
                     if !l.is_empty() && !l.starts_with('#') {
-                        keys.insert(l.split_whitespace().next().unwrap().to_string());
+                        keys.insert(l.to_string());
                     }
                 }
             }
